@@ -24,6 +24,7 @@ import Nebula.Lemmas.CertV2
 import Nebula.Lemmas.CertSign
 import Nebula.Model.CertV1
 import Nebula.Lemmas.CertV1RT
+import Nebula.Lemmas.CertV2RT
 
 namespace Nebula.Props.C03
 open Nebula.Net Nebula.Cert Nebula.Lemmas.CertV2 Nebula.Lemmas.CertSign
@@ -121,26 +122,56 @@ theorem handshake_form_agrees_v2 (b b' pk pk' : List UInt8) (cv cv' : Nat) (c c'
   rw [hv] at hv'
   exact Except.ok.inj hv'
 
-/-- `roundtrip_v2_partial`: decoding the standard encoding of a validated certificate gives it back, provided
-the decoder reads this particular encoding's envelope and details back (`henv`, `hdet`: the codec round trip,
-tied by correspondence). What is *proved* is that nothing else can go wrong: the result is then exactly the
-certificate, and its raw details are the encoder's. -/
-theorem roundtrip_v2_partial (c : Cert) (rd : List UInt8) (hval : validateV2 c = .ok c)
-    (std : List UInt8) (hstd : std = V2.marshal rd c.curve (some c.publicKey) c.signature)
-    (r : Cert × List UInt8) (henv : V2.unmarshal std [] 0 = .ok r) (hrd : r.2 = rd)
-    (hfield : r.1.curve = c.curve ∧ r.1.publicKey = c.publicKey ∧ r.1.signature = c.signature)
-    (hdet : V2.unmarshalDetails rd = some { c with curve := 0, publicKey := [], signature := [] }) :
-    r.1 = c := by
-  obtain ⟨c', rd'⟩ := r
-  simp only at hrd hfield ⊢
-  subst hrd
-  obtain ⟨-, -, d, hd, hv⟩ := unmarshal_ok std [] 0 c' rd' henv
-  rw [hdet] at hd
-  cases hd
-  simp only [hfield.1, hfield.2.1, hfield.2.2] at hv
-  have : ({ c with curve := c.curve, publicKey := c.publicKey, signature := c.signature } : Cert) = c := rfl
-  rw [hval] at hv
-  exact (Except.ok.inj hv).symm
+open Nebula.Lemmas.CertV2RT in
+/-- **v2 round trip, standard form** — `unmarshalCertificateV2 (Marshal c) = c`, and the raw details are the
+encoder's — for every certificate of the shape `validate` produces (`V2OK`: a fixed point of `validate`, i.e.
+name of 1…253 bytes, no empty group, sorted duplicate-free networks, a key; prefixes inside their family;
+whole-second bounds within int64 seconds; hex issuer; one-byte curve; non-empty signature) whose encoding fits
+`MaxCertificateSize`. Any name, any groups, any number of IPv4/IPv6 networks and unsafe networks, both curves,
+CA or host; all five DER length forms and all INTEGER lengths are covered by the field lemmas. -/
+theorem roundtrip_v2 (c : Cert) (h : V2OK c) (rd : List UInt8) (he : V2.encodeDetails c = some rd)
+    (hsz : (V2.marshal rd c.curve (some c.publicKey) c.signature).length ≤ 65536) :
+    V2.unmarshal (V2.marshal rd c.curve (some c.publicKey) c.signature) [] 0 = .ok (c, rd) :=
+  unmarshal_marshal c h rd he hsz
+
+open Nebula.Lemmas.CertV2RT in
+/-- **v2 round trip, handshake form**: `Recombine(Version2, MarshalForHandshakes(c), c.PublicKey(), c.Curve()) = c`. -/
+theorem roundtrip_v2_handshake (c : Cert) (h : V2OK c) (rd : List UInt8) (he : V2.encodeDetails c = some rd)
+    (hsz : (V2.marshalForHandshakes rd c.signature).length ≤ 65536) :
+    V2.recombine (V2.marshalForHandshakes rd c.signature) c.publicKey c.curve = .ok (c, rd) :=
+  recombine_marshalForHandshakes c h rd he hsz
+
+open Nebula.Lemmas.CertV2RT in
+/-- The fingerprint survives: the decoded certificate carries the encoder's raw details, curve, key and
+signature, so the SHA-256 preimage `rawDetails ‖ curve ‖ publicKey ‖ signature` is the same byte string. -/
+theorem roundtrip_v2_fingerprint (c : Cert) (h : V2OK c) (rd : List UInt8) (he : V2.encodeDetails c = some rd)
+    (hsz : (V2.marshal rd c.curve (some c.publicKey) c.signature).length ≤ 65536) :
+    ∃ c' rd', V2.unmarshal (V2.marshal rd c.curve (some c.publicKey) c.signature) [] 0 = .ok (c', rd') ∧
+      V2.fingerprintBytes rd' c'.curve c'.publicKey c'.signature = V2.fingerprintBytes rd c.curve c.publicKey c.signature :=
+  ⟨c, rd, unmarshal_marshal c h rd he hsz, rfl⟩
+
+/-- **decode_total**: the decoders are total functions of their input — for every byte string, key and curve
+each of them returns a certificate or one of finitely many error values; there is no panic outcome in the
+model (every read goes through the bounds-checked readers of `Base/Der` / `Base/CertPb`, every loop has
+explicit fuel bounded by the input length). Stated as an explicit dichotomy. -/
+theorem decode_total (b pk : List UInt8) (cv : Nat) :
+    ((∃ r, V2.unmarshal b pk cv = .ok r) ∨ (∃ e, V2.unmarshal b pk cv = .error e)) ∧
+    ((∃ r, V2.recombine b pk cv = .ok r) ∨ (∃ e, V2.recombine b pk cv = .error e)) ∧
+    ((∃ r, V1.unmarshal b pk = .ok r) ∨ (∃ e, V1.unmarshal b pk = .error e)) ∧
+    ((∃ r, V1.recombine b pk cv = .ok r) ∨ (∃ e, V1.recombine b pk cv = .error e)) := by
+  refine ⟨?_, ?_, ?_, ?_⟩
+  · cases V2.unmarshal b pk cv with
+    | ok r => exact Or.inl ⟨r, rfl⟩
+    | error e => exact Or.inr ⟨e, rfl⟩
+  · cases V2.recombine b pk cv with
+    | ok r => exact Or.inl ⟨r, rfl⟩
+    | error e => exact Or.inr ⟨e, rfl⟩
+  · cases V1.unmarshal b pk with
+    | ok r => exact Or.inl ⟨r, rfl⟩
+    | error e => exact Or.inr ⟨e, rfl⟩
+  · cases V1.recombine b pk cv with
+    | ok r => exact Or.inl ⟨r, rfl⟩
+    | error e => exact Or.inr ⟨e, rfl⟩
 
 /-! ### v1 (protobuf): decode ∘ encode = id, no codec hypothesis -/
 
@@ -187,6 +218,28 @@ theorem decoded_v1_ok (b pk : List UInt8) (c : Cert) (h : V1.unmarshal b pk = .o
   v1ok_of_decoded b pk c h hs hi
 
 /-! ### Concrete round trips evaluated by the kernel (both forms), and non-vacuity -/
+
+open Nebula.Lemmas.CertV1RT in
+example : V1OK exV1Cert :=
+  { version := rfl, valid := by decide,
+    nets := by intro p hp; simp [exV1Cert] at hp; subst hp; unfold V4Prefix; decide,
+    unsafe_nets := by intro p hp; simp [exV1Cert] at hp; subst hp; unfold V4Prefix; decide,
+    nb := ⟨1, by decide, by decide, by decide⟩, na := ⟨-2, by decide, by decide, by decide⟩,
+    issuer := ⟨[0xab], by decide, by decide⟩, curve := by decide, name_len := by decide,
+    groups_len := by decide, pk_len := by decide, sig_len := by decide, ips_len := by decide, subnets_len := by decide }
+
+set_option maxRecDepth 20000 in
+open Nebula.Lemmas.CertV1RT in
+example : ∃ bytes, V1.marshal exV1Cert exV1Cert.publicKey = some bytes ∧ V1.unmarshal bytes [] = .ok exV1Cert := by
+  refine ⟨(V1.marshal exV1Cert exV1Cert.publicKey).getD [], by decide, by decide⟩
+
+open Nebula.Lemmas.CertV2RT in
+example : V2OK exV2Cert :=
+  { valid := by decide, version := rfl,
+    nets := by intro p hp; simp [exV2Cert] at hp; subst hp; unfold PfxWF; decide,
+    unsafe_nets := by intro p hp; simp [exV2Cert] at hp,
+    nb := ⟨1, by decide, by decide, by decide⟩, na := ⟨2, by decide, by decide, by decide⟩,
+    issuer := ⟨[0xab], by decide⟩, curve := by decide, sig_ne := by decide }
 
 example : validateV2 exV2Cert = .ok exV2Cert := by decide
 example : V2.unmarshal exV2Bytes [] 0 = .ok (exV2Cert, exV2Raw) := by decide
